@@ -568,6 +568,10 @@ class Interp:
             return
         if isinstance(v, Untracked):
             raise Unsupported('untracked value stored into tracked map field %r' % (field,))
+        if isinstance(v, SymOpt):
+            # an Optional stored into a tracked map: it must be present on this path (None values are not tracked)
+            self.ctx.check('stored_optional_is_present', v.is_some, 'auxiliary')
+            v = v.value
         arr = m.fields[field]
         new = to_z3(v, arr.range())
         old = z3.Select(arr, zk)
@@ -717,7 +721,42 @@ class Interp:
     def st_Delete(self, s, fr):
         raise Unsupported('del')
 
+    def cut_while(self, s, fr, ordinal, lspec):
+        """while loop cut at its invariant: inv(I, env, None, None) -> {name: formula}; locals the body assigns are havocked (declared shapes) or
+        poisoned.  After the loop: invariant and the negated guard.  Termination is not proved."""
+        ctx = self.ctx
+        tag = '%s#while%d' % (fr.fi.qualname.split('.')[-1], ordinal)
+        if s.orelse or any(isinstance(n, ast.Break) for n in ast.walk(s)):
+            raise Unsupported('%s: break / else on a cut while loop' % tag)
+        names, paths = assigned_and_mutated(s.body)
+        for p in paths:
+            root = p.split('.')[0]
+            if p in lspec.havoc or root in lspec.havoc or (root in names and self._fresh_in_body(root, s.body)):
+                continue
+            raise Unsupported('%s: loop mutates %s which the loop contract does not declare' % (tag, p))
+        for name, f in lspec.inv(self, fr.env, None, None).items():
+            ctx.check('%s.inv.%s.entry' % (tag, name), f, lspec.kind, where='%s:%d' % (fr.fi.file, s.lineno))
+        d = ctx.choose(2, tag)
+        self.havoc(fr, lspec, names, tag)
+        for f in lspec.inv(self, fr.env, None, None).values():
+            ctx.assume(f)
+        c = self.truthy(self.eval(s.test, fr))
+        if d == 0:
+            ctx.assume(to_z3(c))
+            try:
+                self.exec_block(s.body, fr)
+            except _Continue:
+                pass
+            for name, f in lspec.inv(self, fr.env, None, None).items():
+                ctx.check('%s.inv.%s.step' % (tag, name), f, lspec.kind, where='%s:%d' % (fr.fi.file, s.lineno))
+            ctx.cover('%s.body_reachable' % tag)
+            raise PathEnd()
+        ctx.assume(z3.Not(to_z3(c)))
+
     def st_While(self, s, fr):
+        lspec = self.spec.loops.get((fr.fi.qualname, fr.loop_ordinals.get(id(s))))
+        if lspec is not None:
+            return self.cut_while(s, fr, fr.loop_ordinals[id(s)], lspec)
         # only concrete-bounded loops are unrolled
         n = 0
         while True:
@@ -1869,6 +1908,13 @@ class Interp:
                 return m
             if attr == 'copy':
                 return o.copy()
+            if attr == 'pop' and None in o.fields and 1 <= len(args) <= 2 and o.ksort is not None:
+                zk = self.map_key(o, args[0])
+                was, val = z3.IsMember(zk, o.dom), wrap(z3.Select(o.fields[None], zk))
+                if len(args) == 1 and not self.ctx.branch(was, 'pop.present@%d' % getattr(node, 'lineno', 0)):
+                    self.raise_py('KeyError', node)
+                o.dom = z3.SetDel(o.dom, zk)
+                return SymOpt(was, val) if len(args) == 1 or args[1] is None else Untracked()
         if isinstance(o, MapEntry):
             if attr == 'get' and args and isinstance(args[0], str):
                 if args[0] in o.m.fields:
@@ -1998,7 +2044,7 @@ class Interp:
                 return z3.Or(*[z3.SuffixOf(to_z3(x), z) for x in a])
             return z3.SuffixOf(to_z3(a, StrS), z)
         if attr == 'replace' and len(args) == 2:
-            return UF('str.replace_all', StrS, StrS, StrS, StrS)(z, to_z3(args[0], StrS), to_z3(args[1], StrS))
+            return UF('py.str.replace', StrS, StrS, StrS, StrS)(z, to_z3(args[0], StrS), to_z3(args[1], StrS))
         if attr == 'count' and len(args) == 1:
             return UF('str.count', StrS, StrS, IntS)(z, to_z3(args[0], StrS))
         if attr == 'find' and len(args) == 1:
@@ -2119,6 +2165,9 @@ def _b_list(I, args, kwargs, node):
         return v.copy()
     if isinstance(v, dict):
         return list(v.keys())
+    if I.is_pyany(v):
+        # list() of a value of unknown type runs its iterator: arbitrary code of the value
+        return I.pyany_op('list', node, ANY_CALL_ERRORS)
     raise Unsupported('list(%r)' % (v,))
 
 
